@@ -97,6 +97,37 @@ def try_invoke(spk, trains, fn, form, sel, kw):
             return 'exc', e
 
 
+def _arrays_of(r, out):
+    cls = type(r).__name__
+    if isinstance(r, np.ndarray):
+        out.append(r)
+    elif cls in ('PieceWiseConstFunc', 'PieceWiseLinFunc', 'DiscreteFunc'):
+        for nm in ('x', 'y', 'y1', 'y2', 'mp'):
+            a = getattr(r, nm, None)
+            if isinstance(a, np.ndarray):
+                out.append(a)
+    elif cls == 'SpikeTrain':
+        if isinstance(r.spikes, np.ndarray):
+            out.append(r.spikes)
+    elif isinstance(r, (list, tuple)):
+        for x in r:
+            _arrays_of(x, out)
+    return out
+
+
+def scribble(pool, *results):
+    """the caller overwrites what it was handed back (it owns it); a later call must not notice.
+    Arrays that share memory with one of the caller's own trains are left alone."""
+    own = [t.spikes for t in pool if isinstance(t.spikes, np.ndarray)]
+    for a in _arrays_of(list(results), []):
+        try:
+            if a.size and a.flags.writeable and a.dtype.kind in 'fi' and \
+                    not any(np.shares_memory(a, o) for o in own):
+                a[...] = -4242
+        except Exception:
+            pass
+
+
 def snapshot(trains):
     out = []
     for t in trains:
@@ -522,6 +553,8 @@ def _exec_op(world, spk, rec, prop, op, pool, specs, config, t0, t1):
         fn, form, sel, kw = op['fn'], op['form'], op['sel'], op['kw']
         st, r = try_invoke(spk, pool, fn, form, sel, kw)
         rec.log(('call', fn, form, st, digest(norm(r))))
+        if prop != 'C18' and rec.order.random() < 0.5:
+            scribble(pool, r)
         if prop == 'C18':
             family, k, _, _ = FUNCS[fn]
             counts = [len(specs[i]['s']) for i in sel]
@@ -539,9 +572,12 @@ def _exec_op(world, spk, rec, prop, op, pool, specs, config, t0, t1):
                     rec.violate('C18.wellformed', {'op': op, 'why': why, 'config': config,
                                                    'trains': [specs[i]['s'] for i in sel],
                                                    'result': norm(r)}, facts)
+            if rec.order.random() < 0.5:
+                scribble(pool, r)
         return
     if kind == 'svp':
         return _op_svp(spk, rec, op, pool, specs, config)
+    # (svp, swap, self, forms and disorder scribble on their results themselves)
     if kind == 'range':
         fn, form, sel, kw = op['fn'], op['form'], op['sel'], op['kw']
         st, r = try_invoke(spk, pool, fn, form, sel, kw)
@@ -584,6 +620,9 @@ def _op_svp(spk, rec, op, pool, specs, config):
         st2, pr = try_invoke(spk, pool, PROFILE[m], form, sel, pkw)
         st1, sc = try_invoke(spk, pool, SCALAR[m], form, sel, skw)
     rec.log(('svp', m, form, st1, st2, digest(norm(sc)), digest(norm(pr))))
+    npr = norm(pr)
+    if rec.order.random() < 0.5:
+        scribble(pool, pr, sc)
     facts = _facts(op, specs, config, m=m, iv=('none' if iv is None else 'sub'))
     detail = {'op': op, 'config': config, 'trains': [specs[i]['s'] for i in sel],
               'edges': specs[0]['e']}
@@ -594,12 +633,12 @@ def _op_svp(spk, rec, op, pool, specs, config):
     try:
         scv = float(sc)
         if m == 'isi':
-            want = models.pwc_average(norm(pr)['pwc'][0], norm(pr)['pwc'][1], iv)
+            want = models.pwc_average(npr['pwc'][0], npr['pwc'][1], iv)
         elif m == 'spike':
-            x, y1, y2 = norm(pr)['pwl']
+            x, y1, y2 = npr['pwl']
             want = models.pwl_average(x, y1, y2, iv)
         else:
-            x, y, mp = norm(pr)['disc']
+            x, y, mp = npr['disc']
             sv, sm = models.disc_sums(x, y, mp, iv)
             if sm == 0:
                 if m == 'sync':
@@ -610,12 +649,12 @@ def _op_svp(spk, rec, op, pool, specs, config):
             else:
                 want = sv / sm
     except Exception as e:
-        rec.violate('C05.profile_unusable', dict(detail, error=repr(e), profile=norm(pr)), facts)
+        rec.violate('C05.profile_unusable', dict(detail, error=repr(e), profile=npr), facts)
         return
     rec.compared += 1
     if not close(scv, want):
         rec.violate('C05.scalar_eq_profile', dict(detail, scalar=scv, profile_average=want,
-                                                  profile=norm(pr)),
+                                                  profile=npr),
                     dict(facts, scalar_nan=(scv != scv), want_nan=(want != want)))
     if m == 'sync':
         # no spike in the closed averaging interval(s) -> 1 by convention
@@ -631,15 +670,18 @@ def _op_swap(spk, rec, op, pool, specs, config):
     m, kind, sel, kw = op['m'], op['kind'], op['sel'], op['kw']
     fn = PROFILE[m] if kind == 'prof' else SCALAR[m]
     st1, r1 = try_invoke(spk, pool, fn, 'pair', sel, kw)
+    n1 = norm(r1)
+    if rec.order.random() < 0.5:
+        scribble(pool, r1)          # before the second call: it must not be handed the same arrays again
     st2, r2 = try_invoke(spk, pool, fn, 'pair', [sel[1], sel[0]], kw)
-    rec.log(('swap', fn, st1, st2, digest(norm(r1)), digest(norm(r2))))
+    rec.log(('swap', fn, st1, st2, digest(n1), digest(norm(r2))))
     if st1 == 'exc' and st2 == 'exc':
         return
     rec.compared += 1
-    if st1 != st2 or not same_norm(norm(r1), norm(r2)):
+    if st1 != st2 or not same_norm(n1, norm(r2)):
         rec.violate('C07.swap_symmetry', {'op': op, 'config': config, 'fn': fn,
                                           'trains': [specs[i]['s'] for i in sel],
-                                          'ab': norm(r1), 'ba': norm(r2)},
+                                          'ab': n1, 'ba': norm(r2)},
                     _facts(op, specs, config, fn=fn, m=m))
 
 
@@ -701,6 +743,8 @@ def _op_forms(spk, rec, op, pool, specs, config):
     for form in forms:
         st, r = try_invoke(spk, pool, fn, form, sel, kw)
         results.append((form, st, norm(r)))
+        if rec.order.random() < 0.5:
+            scribble(pool, r)
     rec.log(('forms', fn, [(f, s, digest(n)) for f, s, n in results]))
     if len(results) < 2:
         return
